@@ -14,7 +14,7 @@ def fuzz(pkg, target, secs, parallel=8):
 
 
 CHECKS = {
-    "C01": {"units": [rapid("csyncx", "TestC01", 10000, 100000)]},
+    "C01": {"units": [rapid("freex", "TestC01Free", 1500, 10000, 16), rapid("csyncx", "TestC01", 10000, 100000)]},
     "C02": {"units": [rapid("csyncx", "TestC02", 10000, 100000)]},
     "C03": {"units": [rapid("bcastx", "TestC03", 10000, 100000)]},
     "C04": {"units": [rapid("routinex", "TestC04", 10000, 60000)]},
@@ -26,12 +26,12 @@ CHECKS = {
     "C07": {"units": [rapid("keyedx", "TestC07", 8000, 50000)]},
     "C08": {"units": [rapid("refcountx", "TestC08", 8000, 50000)]},
     "C09": {"units": [rapid("refcountx", "TestC09", 8000, 50000)]},
-    "C10": {"units": [rapid("refcountx", "TestC10", 8000, 50000)]},
-    "C11": {"units": [rapid("promisex", "TestC11", 10000, 80000)]},
-    "C15": {"units": [rapid("ccontx", "TestC15", 10000, 80000)]},
-    "C16": {"units": [rapid("promisex", "TestC16", 10000, 80000)]},
+    "C10": {"units": [rapid("refcountx", "TestC10", 20000, 60000)]},
+    "C11": {"units": [rapid("freex", "TestC11Free", 1500, 10000, 16), rapid("promisex", "TestC11", 10000, 80000)]},
+    "C15": {"units": [rapid("freex", "TestC15Free", 1000, 8000, 16), rapid("ccontx", "TestC15", 10000, 80000)]},
+    "C16": {"units": [rapid("freex", "TestC16Free", 1500, 10000, 16), rapid("promisex", "TestC16", 10000, 80000)]},
     "C17": {"units": [rapid("ccallx", "TestC17", 20000, 150000)]},
-    "C18": {"units": [rapid("concx", "TestC18", 8000, 60000)]},
+    "C18": {"units": [rapid("freex", "TestC18Free", 1000, 8000, 16), rapid("concx", "TestC18", 8000, 60000)]},
     "C19": {"units": [
         rapid("codecx", "TestC19Pad", 20000, 60000, 4),
         rapid("codecx", "TestC19Unpad", 20000, 60000, 4),
